@@ -7,3 +7,6 @@ package catalog
 func VerifTagName(title string) string { return string(tagName(title)) }
 
 func VerifPathTagTitle(path string) string { return pathTagTitle(path) }
+
+// VerifNewRulesBuilder gives the harness a rules builder (the constructor is unexported).
+func VerifNewRulesBuilder(capacity int) *RulesBuilder { return newRulesBuilder(capacity) }
